@@ -13,6 +13,7 @@ from ..absint import eval_term
 from ..facts import AnalysisError
 from ..terms import const, contains, show, strip_sites, subterms
 from ..util import InlineOnly, NoInline, P, calls_to, engine, loc, param_at
+from .derived import cache_coherence
 from .C10 import TIMING_VALUATIONS, sleep_arg, timing_leaf
 
 DISC = "sd.ServiceDiscover"
@@ -20,6 +21,8 @@ PROTO = "sd.ServiceDiscoveryProtocol"
 
 
 def check(run, prog, tier):
+    # "not yet found" must be answered from the live store, never from a copy that a change of the store does not reset
+    cache_coherence(run, prog, "N5", ['sd.ServiceDiscover', 'sd.TimedStore'])
     run.explanation = (
         "send_find_services is a coroutine with await points; the guarantee 'only services not found *now*' is a "
         "freshness fact: on every enumerated path the list handed to send_sd was computed after the last await "
